@@ -174,6 +174,24 @@ def orphan_linger(r):
             and t["snd_una"] == t["snd_nxt"] and t["snd_nxt"] <= t["fin_seq"] and t["snd_wnd"] == 0)
 
 
+def fin_below_rcv_nxt(case, obs, r):
+    """A FIN of the peer was delivered to this socket at a position BELOW its final rcv_nxt although the socket has
+    not taken any FIN: its receive sequence ran past the peer's FIN - impossible for a correct receiver, so such a
+    leftover is not the OrphanLinger class (whose sockets wait for a FIN / RST that never arrived)."""
+    t = r["tcb"]
+    if not t or t["peer_fin"] or not r.get("local"):
+        return None
+    loc, peer = tuple(r["local"]), tuple(t["peer"])
+    for i, (c, o) in enumerate(zip(case["script"], obs["obs"])):
+        pk = [o["p"]] if c[0] in ("deliver", "dup") and o.get("r") == "ok" else (o["pk"] if c[0] == "flush" else [])
+        for p in pk:
+            if p[0] == 0 and p[7] & F.F_FIN and (p[2], p[4]) == loc and (p[1], p[3]) == peer:
+                fin_pos = (p[5] + len(p[9])) % 2 ** 32
+                if 0 < (t["rcv_nxt"] - fin_pos) % 2 ** 32 < 2 ** 31:
+                    return i
+    return None
+
+
 def reclaimed(case, obs, plan):
     out = []
     script, ob = case["script"], obs["obs"]
@@ -196,11 +214,15 @@ def reclaimed(case, obs, plan):
             klass = None
             rs = rows.get(h, {"rows": []})["rows"]
             leftovers = [r for r in rs]
-            if leftovers and all(orphan_linger(r) for r in leftovers):
+            past = [(r["fd"], fin_below_rcv_nxt(case, obs, r)) for r in leftovers]
+            past = [(fd, j) for (fd, j) in past if j is not None]
+            if leftovers and all(orphan_linger(r) for r in leftovers) and not past:
                 klass = "OrphanLinger"
             out.append(("step %d: after both sides dropped everything and %d quiet rounds host %d still holds %s "
-                        "(sockets, binding keys, bound fds, 4-tuples); leftovers: %s"
-                        % (i, 1, h, cnt, [(r["fd"], r["fd_closed"], r["tcb"] and r["tcb"]["state"]) for r in leftovers]), klass))
+                        "(sockets, binding keys, bound fds, 4-tuples); leftovers: %s%s"
+                        % (i, 1, h, cnt, [(r["fd"], r["fd_closed"], r["tcb"] and r["tcb"]["state"]) for r in leftovers],
+                           "".join("; the peer's FIN delivered at step %d lies below rcv_nxt of fd %d but was never taken" % (j, fd)
+                                   for (fd, j) in past)), klass))
     # the port can be bound again
     for i, (c, o) in enumerate(zip(script, ob)):
         if c[0] == "listen" and c[1] == plan["final_listen"] and o.get("r") != "ok":
@@ -241,7 +263,8 @@ class Spec(PropSpec):
             "drop / re-listen, with every handshake and close packet deliverable, droppable and overtakable; backlog 1..3; "
             "targets with and without listener, unowned addresses; after the teardown both hosts are probed (netstat, "
             "verif-hooks table counts and rows) and the port is bound again; deterministic family: the bare ACK of the handshake "
-            "is lost and the client does not speak first (accept must still hand the connection out, once). Non-trivial = at least two of "
+            "is lost and the client does not speak first (accept must still hand the connection out, once); exactly the first "
+            "SYN / the first SYN-ACK is lost, then data, close, quiet rounds, table probes and re-bind. Non-trivial = at least two of "
             "{connect ok, refused, timed out, accept, cancel} occurred; distinct = distinct (cfg, script)")
     assumptions = [
         "c13_index_coherent quantifies over every syscall sequence with arbitrary arguments and every inbound packet sequence (kreach)",
@@ -259,7 +282,7 @@ class Spec(PropSpec):
         n = 400 if ctx.tier == "quick" else 3000
         if ctx.escalate:
             n *= 2
-        cases = F.handshake_ack_lost_cases()
+        cases = F.handshake_ack_lost_cases() + F.hs_retx_cases()
         for i in range(n):
             r = i % 10
             if r < 7:
